@@ -534,6 +534,7 @@ def gen_assemble_config(rng, tier):
         "mcmc_chains": rng.choice([1, 2]),
         "mcmc_seed": rng.randrange(1, 1 << 20),
         "temperatures": rng.choice([None, None, [0.5], [0.2, 0.6]]),
+        "mci_threshold": rng.choice([None, None, 0.3, 0.9]),
     })
     return cfg
 
@@ -555,6 +556,8 @@ def run_assemble_cli(ctx, on_fit):
             argv += ["--mcmc-fix-homozygous", repr(cfg["fix_homozygous"])]
         if cfg["temperatures"]:
             argv += ["--mcmc-temperatures"] + [repr(t) for t in cfg["temperatures"]] + ["1.0"]
+        if cfg.get("mci_threshold") is not None:
+            argv += ["--mcmc-chain-incongruence-threshold", repr(cfg["mci_threshold"])]
         cur = {}
         recs = []
         real_cls = amod.DenovoMCMC
